@@ -301,6 +301,7 @@ type Call struct {
 	Skip          []int // per-node function returns nil for these endpoints (1-based)
 	Empty         []int // per-node function returns a valid message with every field at its default for these endpoints
 	MutateInPlace bool  // the per-node function changes the message it is given and returns it (it is documented to receive a copy)
+	Scribble      bool  // the per-node function reads its argument, overwrites it, and returns a fresh message (or nil for a skipped node)
 	NoSendWaiting bool
 	// Hook, if set, runs at the start of every invocation of the per-node function.
 	Hook func(id uint32)
@@ -374,6 +375,14 @@ func (c *Call) skips(node int) bool {
 func (c *Call) PerNode(r *dev.Request, id uint32) *dev.Request {
 	if c.Hook != nil {
 		c.Hook(id)
+	}
+	if c.Scribble {
+		val := r.Value
+		r.Value = fmt.Sprintf("scribbled-by-%d", id) // its own copy: nobody else may ever see this
+		if c.skips(int(id)) {
+			return nil
+		}
+		return &dev.Request{Value: fmt.Sprintf("%s/n%d", val, id)}
 	}
 	if c.skips(int(id)) {
 		return nil
